@@ -284,6 +284,8 @@ impl Writer {
             }
         }
 
+        #[cfg(walrus_verif)]
+        crate::wal::verif::point("bw.planned");
         debug_print!(
             "[batch] planning complete: {} write operations across {} blocks",
             write_plan.len(),
@@ -364,6 +366,8 @@ impl Writer {
         }
 
         // NOW update the writer's offset to make data visible to readers
+        #[cfg(walrus_verif)]
+        crate::wal::verif::point("bw.before_publish");
         *cur_offset = planning_offset;
 
         debug_print!(
@@ -543,6 +547,8 @@ impl Writer {
                 }
 
                 // NOW update the writer's offset to make data visible to readers
+                #[cfg(walrus_verif)]
+                crate::wal::verif::point("bw.before_publish");
                 *cur_offset = planning_offset;
 
                 debug_print!(
@@ -592,5 +598,15 @@ impl Writer {
             std::io::Error::new(std::io::ErrorKind::Other, "current_offset lock poisoned")
         })?;
         Ok((block.clone(), *offset))
+    }
+}
+
+#[cfg(walrus_verif)]
+impl Writer {
+    /// Is one of the writer mutexes held right now? (The verification scheduler parks a
+    /// thread inside `batch_write` and must not hand the baton to a thread that would block
+    /// on these mutexes.)
+    pub(super) fn verif_is_locked(&self) -> bool {
+        self.current_block.try_lock().is_err() || self.current_offset.try_lock().is_err()
     }
 }
